@@ -218,15 +218,16 @@ def hot_lines(code, globs, strict=False):
 
 
 _IPOINT_CACHE = {}
-_CALL_OPS = frozenset(n for n in _opcode.opmap if n.startswith('CALL') or n in ('BINARY_SUBSCR', 'STORE_SUBSCR', 'LOAD_ATTR',
-                                                                                  'STORE_ATTR', 'CONTAINS_OP', 'COMPARE_OP',
-                                                                                  'BINARY_OP', 'GET_ITER', 'FOR_ITER', 'SEND'))
+# CPython 3.12 checks the eval breaker (where another thread can take the GIL) after CALL-family instructions, at
+# RESUME and at backward jumps; the last two start a function or a new line event anyway.  Only instructions that
+# FOLLOW a call are therefore pre-emption points inside a line: an interleaving injected elsewhere (between a
+# subscription and a store on builtin containers, say) could not happen in a real interpreter.
+_CALL_OPS = frozenset(n for n in _opcode.opmap if n.startswith('CALL'))
 
 
 def instr_points(code, hot):
     """Instruction offsets INSIDE shared-state lines of `code` at which another thread could get to run
-    in CPython: right after an instruction that calls out (a call, or an operation that may run a
-    method: subscription, attribute access, comparison, arithmetic, iteration).  hot: set of (code, line)."""
+    in CPython: right after a CALL-family instruction.  hot: set of (code, line)."""
     import dis
     key = code
     hit = _IPOINT_CACHE.get(key)
